@@ -1051,6 +1051,11 @@ for _p in ("C11", "C12", "C13", "C14", "C17"):
     ADDENDA[_p] = ADDENDA.get(_p, "") + _FUT
 ADDENDA["C14"] = ADDENDA.get("C14", "") + (" c14run also has pipelines in which the never-ending source is cancelled before its first step "
                                             "(loser of a merge, loser of amb, replaced by switch_map).")
+for _p in ("C02", "C03"):
+    ADDENDA[_p] = ADDENDA.get(_p, "") + (" The ownership proofs are about one subscription; the frame condition that carries them to every subscription and "
+                                         "application (state is allocated per subscription, frame.run_local) is checked over all operator and source files.")
+ADDENDA["C37"] = ADDENDA.get("C37", "") + " A tick of generate / generate_with_relative_time calls exactly the user functions one loop step needs, in order."
+ADDENDA["C17"] = ADDENDA.get("C17", "") + " timeout_with_mapper's mapper may be omitted (never() through its callee contract)."
 for _p, _t in ADDENDA.items():
     if _p in CHECKS:
         CHECKS[_p] = dict(CHECKS[_p], text=CHECKS[_p]["text"] + _t)
